@@ -32,6 +32,7 @@
 
 #[path = "../c02/wire.rs"]
 mod wire;
+mod signed;
 
 use std::collections::BTreeMap;
 use std::net::{Ipv4Addr, SocketAddr};
@@ -46,7 +47,7 @@ use hickory_proto::rr::rdata::{A, AAAA, MX, NS, SOA, TXT};
 use hickory_proto::rr::{LowerName, Name, RData, Record, RecordSet, RrKey};
 use hickory_proto::serialize::binary::{BinEncodable, BinEncoder};
 use hickory_server::dnssec::NxProofKind;
-use hickory_server::server::ResponseHandle;
+use hickory_server::server::{RequestHandler, ResponseHandle};
 use hickory_server::store::in_memory::InMemoryZoneHandler;
 use hickory_server::zone_handler::{AxfrPolicy, Catalog, ZoneHandler, ZoneType};
 use hickory_server::Server;
@@ -136,6 +137,8 @@ struct Verdicts<'a> {
 struct Judged {
     dropped: bool,
     kept: usize,
+    /// the original's TSIG record is present in the judged bytes (false when the original has none)
+    has_tsig: bool,
 }
 
 impl Verdicts<'_> {
@@ -253,7 +256,7 @@ impl Verdicts<'_> {
         if orig.tsig.is_some() && !has_tsig {
             self.rep.count("tsig_dropped");
         }
-        Some(Judged { dropped, kept: an.len() + ns.len() + k })
+        Some(Judged { dropped, kept: an.len() + ns.len() + k, has_tsig })
     }
 }
 
@@ -448,6 +451,44 @@ fn zone_spec(zseed: u64) -> ZoneSpec {
     ZoneSpec { sets }
 }
 
+/// The records of one generated RRset `(label, type, n, size)` and the address records of the
+/// MX / NS targets it names.
+fn set_records(label: &str, t: u16, n: usize, size: usize) -> (Vec<Record>, Vec<Record>) {
+    let owner = Name::from_ascii(format!("{label}.{ORIGIN}")).unwrap();
+    let (mut recs, mut glue) = (Vec::new(), Vec::new());
+    for i in 0..n {
+        let rd = match t {
+            1 => RData::A(A::from(Ipv4Addr::from(0x0a00_0000u32 + i as u32))),
+            28 => RData::AAAA(AAAA::from(std::net::Ipv6Addr::from(0x2001_0db8_0000_0000_0000_0000_0000_0000u128 + i as u128))),
+            16 => {
+                let s: Vec<u8> = (0..size).map(|k| b'a' + ((i + k) % 26) as u8).collect();
+                let tag = format!("{i:04}").into_bytes();
+                RData::TXT(TXT::from_bytes(vec![&tag, &s]))
+            }
+            15 => {
+                let x = Name::from_ascii(format!("mx{i}-{}.{label}.{ORIGIN}", "m".repeat(size))).unwrap();
+                glue.push(Record::from_rdata(x.clone(), 300, RData::A(A::from(Ipv4Addr::from(0x0b00_0000u32 + i as u32)))));
+                RData::MX(MX::new(i as u16, x))
+            }
+            _ => {
+                let x = Name::from_ascii(format!("ns{i}-{}.{label}.{ORIGIN}", "n".repeat(size))).unwrap();
+                glue.push(Record::from_rdata(x.clone(), 300, RData::A(A::from(Ipv4Addr::from(0x0c00_0000u32 + i as u32)))));
+                RData::NS(NS(x))
+            }
+        };
+        recs.push(Record::from_rdata(owner.clone(), 300, rd));
+    }
+    (recs, glue)
+}
+
+fn soa_record() -> Record {
+    Record::from_rdata(
+        Name::from_ascii(ORIGIN).unwrap(),
+        3600,
+        RData::SOA(SOA::new(Name::from_ascii("ns.z.test.").unwrap(), Name::from_ascii("admin.z.test.").unwrap(), 1, 3600, 600, 86400, 300)),
+    )
+}
+
 fn build_catalog(spec: &ZoneSpec) -> Catalog {
     let origin = Name::from_ascii(ORIGIN).unwrap();
     let mut records: BTreeMap<RrKey, RecordSet> = BTreeMap::new();
@@ -455,36 +496,13 @@ fn build_catalog(spec: &ZoneSpec) -> Catalog {
         let key = RrKey::new(LowerName::from(&rec.name), rec.record_type());
         records.entry(key).or_insert_with(|| RecordSet::new(rec.name.clone(), rec.record_type(), 0)).insert(rec, 0);
     };
-    add(Record::from_rdata(
-        origin.clone(),
-        3600,
-        RData::SOA(SOA::new(Name::from_ascii("ns.z.test.").unwrap(), Name::from_ascii("admin.z.test.").unwrap(), 1, 3600, 600, 86400, 300)),
-    ));
+    add(soa_record());
     add(Record::from_rdata(origin.clone(), 3600, RData::NS(NS(Name::from_ascii("ns.z.test.").unwrap()))));
     add(Record::from_rdata(Name::from_ascii("ns.z.test.").unwrap(), 3600, RData::A(A::new(192, 0, 2, 53))));
     for (label, t, n, size) in &spec.sets {
-        let owner = Name::from_ascii(format!("{label}.{ORIGIN}")).unwrap();
-        for i in 0..*n {
-            let rd = match t {
-                1 => RData::A(A::from(Ipv4Addr::from(0x0a00_0000u32 + i as u32))),
-                28 => RData::AAAA(AAAA::from(std::net::Ipv6Addr::from(0x2001_0db8_0000_0000_0000_0000_0000_0000u128 + i as u128))),
-                16 => {
-                    let s: Vec<u8> = (0..*size).map(|k| b'a' + ((i + k) % 26) as u8).collect();
-                    let tag = format!("{i:04}").into_bytes();
-                    RData::TXT(TXT::from_bytes(vec![&tag, &s]))
-                }
-                15 => {
-                    let x = Name::from_ascii(format!("mx{i}-{}.{label}.{ORIGIN}", "m".repeat(*size))).unwrap();
-                    add(Record::from_rdata(x.clone(), 300, RData::A(A::from(Ipv4Addr::from(0x0b00_0000u32 + i as u32)))));
-                    RData::MX(MX::new(i as u16, x))
-                }
-                _ => {
-                    let x = Name::from_ascii(format!("ns{i}-{}.{label}.{ORIGIN}", "n".repeat(*size))).unwrap();
-                    add(Record::from_rdata(x.clone(), 300, RData::A(A::from(Ipv4Addr::from(0x0c00_0000u32 + i as u32)))));
-                    RData::NS(NS(x))
-                }
-            };
-            add(Record::from_rdata(owner.clone(), 300, rd));
+        let (recs, glue) = set_records(label, *t, *n, *size);
+        for r in glue.into_iter().chain(recs) {
+            add(r);
         }
     }
     let h: InMemoryZoneHandler<TokioRuntimeProvider> =
@@ -510,7 +528,7 @@ fn src() -> SocketAddr {
 
 /// Send one request through the real gate with a real ResponseHandle; returns the byte strings
 /// handed to the stream handle.
-async fn ask(server: &Server<Catalog>, req: &[u8], proto: Protocol) -> Vec<Vec<u8>> {
+async fn ask<H: RequestHandler>(server: &Server<H>, req: &[u8], proto: Protocol) -> Vec<Vec<u8>> {
     let (sh, mut rx) = BufDnsStreamHandle::new(src());
     let rh = ResponseHandle::new(src(), sh, proto);
     server.verif_handle_request(bytes::Bytes::from(req.to_vec()), src(), proto, rh).await;
@@ -524,42 +542,34 @@ async fn ask(server: &Server<Catalog>, req: &[u8], proto: Protocol) -> Vec<Vec<u
 
 const PAYLOADS: &[Option<u16>] = &[None, Some(0), Some(100), Some(511), Some(512), Some(513), Some(1232), Some(4096), Some(65535)];
 
-fn server_case(v: &mut Verdicts, rt: &tokio::runtime::Runtime, server: &Server<Catalog>, zseed: u64, req: &[u8], payload: Option<u16>) {
-    let case = |proto: &str| json!({"kind": "server", "zseed": zseed, "request": hex(req), "protocol": proto, "payload": payload});
-    let tcp = match mon::catch(|| rt.block_on(ask(server, req, Protocol::Tcp))) {
-        Ok(x) => x,
-        Err(p) => {
-            v.rep.violation("panic", &format!("server|tcp|{}", p.site()), case("tcp"), json!("no panic"), json!({"panic": p.message, "at": p.location}));
-            return;
-        }
-    };
-    let udp = match mon::catch(|| rt.block_on(ask(server, req, Protocol::Udp))) {
-        Ok(x) => x,
-        Err(p) => {
-            v.rep.violation("panic", &format!("server|udp|{}", p.site()), case("udp"), json!("no panic"), json!({"panic": p.message, "at": p.location}));
-            return;
-        }
-    };
-    v.rep.eval();
-    v.rep.eval();
-    v.rep.count("server_requests");
-    if tcp.len() != 1 || udp.len() != 1 {
-        // exactly-once is C11's business; we need one response each to judge sizes
-        v.rep.count("server_not_exactly_one_response");
-        return;
-    }
-    let (tcp, udp) = (&tcp[0], &udp[0]);
-    v.rep.max("server_max_tcp_len", tcp.len() as f64);
-    v.rep.max("server_max_udp_len", udp.len() as f64);
+/// What `judge_pair` saw of the UDP answer.
+struct PairSeen {
+    /// at least one record (OPT / TSIG included) of the complete answer is missing (with a
+    /// reference), resp. TC is set (without one)
+    udp_truncated: bool,
+    /// the last record of the UDP answer is a TSIG record
+    udp_has_tsig: bool,
+    has_reference: bool,
+}
+
+/// The server-path clauses on one (TCP answer, UDP answer) pair to the same request:
+/// UDP ≤ `udp_limit` = max(512, advertised), TCP ≤ 65 535, both walk with nothing left over, and —
+/// when the TCP answer is complete — the UDP answer is judged against it with every clause of
+/// `judge` (counts, prefix per section with OPT / TSIG as appended additionals, TC iff dropped).
+/// `pfx` prefixes the counters ("server" = Catalog path, "signed" = harness-owned handler, ...),
+/// `tag` is appended to the transport in the signature ("" or "+tsig").
+#[allow(clippy::too_many_arguments)]
+fn judge_pair(v: &mut Verdicts, pfx: &str, tag: &str, tcp: &[u8], udp: &[u8], udp_limit: usize, case: &dyn Fn(&str) -> Value) -> Option<PairSeen> {
+    v.rep.max(&format!("{pfx}_max_tcp_len"), tcp.len() as f64);
+    v.rep.max(&format!("{pfx}_max_udp_len"), udp.len() as f64);
+    let last_is_tsig = |b: &[u8], w: &WMessage| w.sections[2].last().is_some_and(|r| wire::canon_record(b, r).rtype == 250);
     // TCP: ≤ 65535 and well-formed; it is also the reference for the UDP answer
-    let udp_limit = payload.map_or(512usize, |p| (p as usize).max(512));
-    // the reference: the TCP response if it was not itself truncated
     let Ok(tw) = refwire::walk(tcp) else {
-        v.rep.violation("undecodable", "server|tcp|refwire", case("tcp"), json!("response walks"), json!({"returned": hex(&tcp[..tcp.len().min(4096)])}));
-        return;
+        v.rep.violation("undecodable", &format!("server|tcp{tag}|refwire"), case("tcp"), json!("response walks"), json!({"returned": hex(&tcp[..tcp.len().min(4096)])}));
+        return None;
     };
     if tcp.len() > 65535 {
-        v.rep.violation("length", "server|tcp", case("tcp"), json!({"max_len": 65535}), json!({"returned_len": tcp.len()}));
+        v.rep.violation("length", &format!("server|tcp{tag}"), case("tcp"), json!({"max_len": 65535}), json!({"returned_len": tcp.len()}));
     }
     if tw.end != tcp.len() {
         let trunc = if tw.header.tc() { "truncated" } else { "not-truncated" };
@@ -572,31 +582,34 @@ fn server_case(v: &mut Verdicts, rt: &tokio::runtime::Runtime, server: &Server<C
         );
     }
     if tw.header.tc() {
-        v.rep.count("server_tcp_truncated");
+        v.rep.count(&format!("{pfx}_tcp_truncated"));
     }
+    let mut seen = PairSeen { udp_truncated: false, udp_has_tsig: false, has_reference: false };
     // UDP judged against the TCP answer when that one is complete and well-formed
-    if !tw.header.tc() && tw.end == tcp.len() {
-        match Original::new(tcp.clone()) {
-            Ok(orig) => {
-                let cut = orig.cut_class(udp_limit);
-                if let Some(j) = v.judge("server|udp", &orig, false, udp_limit, udp, cut, &case("udp")) {
-                    if j.dropped {
-                        v.rep.count("server_udp_truncations");
-                        v.rep.count(&format!("server_trunc_cut/{cut}"));
-                        let mut key = tcp.clone();
-                        key.extend_from_slice(&(udp_limit as u32).to_be_bytes());
-                        v.rep.nontrivial(fnv64(&key));
-                    } else {
-                        v.rep.count("server_udp_complete");
-                    }
-                }
-            }
-            Err(_) => v.rep.count("server_tcp_reference_unusable"),
+    let reference = if !tw.header.tc() && tw.end == tcp.len() { Original::new(tcp.to_vec()).ok() } else { None };
+    if !tw.header.tc() && tw.end == tcp.len() && reference.is_none() {
+        v.rep.count(&format!("{pfx}_tcp_reference_unusable"));
+        return None;
+    }
+    if let Some(orig) = reference {
+        seen.has_reference = true;
+        let cut = orig.cut_class(udp_limit);
+        let j = v.judge(&format!("server|udp{tag}"), &orig, false, udp_limit, udp, cut, &case("udp"))?;
+        seen.udp_truncated = j.dropped;
+        seen.udp_has_tsig = j.has_tsig;
+        if j.dropped {
+            v.rep.count(&format!("{pfx}_udp_truncations"));
+            v.rep.count(&format!("{pfx}_trunc_cut/{cut}"));
+            let mut key = tcp.to_vec();
+            key.extend_from_slice(&(udp_limit as u32).to_be_bytes());
+            v.rep.nontrivial(fnv64(&key));
+        } else {
+            v.rep.count(&format!("{pfx}_udp_complete"));
         }
     } else {
         // no reference: judge length / well-formedness only
         if udp.len() > udp_limit {
-            v.rep.violation("length", "server|udp|no-reference", case("udp"), json!({"max_len": udp_limit}), json!({"returned_len": udp.len()}));
+            v.rep.violation("length", &format!("server|udp{tag}|no-reference"), case("udp"), json!({"max_len": udp_limit}), json!({"returned_len": udp.len()}));
         }
         match refwire::walk(udp) {
             Ok(uw) => {
@@ -610,13 +623,58 @@ fn server_case(v: &mut Verdicts, rt: &tokio::runtime::Runtime, server: &Server<C
                     );
                 }
                 if uw.header.tc() {
-                    v.rep.count("server_udp_truncations");
+                    v.rep.count(&format!("{pfx}_udp_truncations"));
                 }
+                seen.udp_truncated = uw.header.tc();
+                seen.udp_has_tsig = last_is_tsig(udp, &uw);
             }
-            Err(e) => v.rep.violation("undecodable", "server|udp|refwire|no-reference", case("udp"), json!("response walks"), json!({"error": e, "returned": hex(&udp[..udp.len().min(4096)])})),
+            Err(e) => {
+                v.rep.violation("undecodable", &format!("server|udp{tag}|refwire|no-reference"), case("udp"), json!("response walks"), json!({"error": e, "returned": hex(&udp[..udp.len().min(4096)])}));
+                return None;
+            }
         }
     }
-    v.rep.count(&format!("server_payload/{}", payload.map_or("absent".to_string(), |p| p.to_string())));
+    Some(seen)
+}
+
+/// One request over TCP and over UDP through the gate of `server`; `None` (after reporting /
+/// counting) when there is not exactly one response each.
+fn exchange<H: RequestHandler>(v: &mut Verdicts, rt: &tokio::runtime::Runtime, server: &Server<H>, pfx: &str, tag: &str, req: &[u8], case: &dyn Fn(&str) -> Value) -> Option<(Vec<u8>, Vec<u8>)> {
+    let mut got = Vec::new();
+    for (proto, name) in [(Protocol::Tcp, "tcp"), (Protocol::Udp, "udp")] {
+        match mon::catch(|| rt.block_on(ask(server, req, proto))) {
+            Ok(x) => got.push(x),
+            Err(p) => {
+                v.rep.violation("panic", &format!("server|{name}{tag}|{}", p.site()), case(name), json!("no panic"), json!({"panic": p.message, "at": p.location}));
+                return None;
+            }
+        }
+    }
+    v.rep.eval();
+    v.rep.eval();
+    v.rep.count(&format!("{pfx}_requests"));
+    let udp = got.pop()?;
+    let tcp = got.pop()?;
+    if tcp.len() != 1 || udp.len() != 1 {
+        // exactly-once is C11's business; we need one response each to judge sizes
+        v.rep.count(&format!("{pfx}_not_exactly_one_response"));
+        return None;
+    }
+    Some((tcp.into_iter().next()?, udp.into_iter().next()?))
+}
+
+fn udp_limit_of(payload: Option<u16>) -> usize {
+    payload.map_or(512usize, |p| (p as usize).max(512))
+}
+
+fn server_case(v: &mut Verdicts, rt: &tokio::runtime::Runtime, server: &Server<Catalog>, zseed: u64, req: &[u8], payload: Option<u16>) {
+    let case = |proto: &str| json!({"kind": "server", "zseed": zseed, "request": hex(req), "protocol": proto, "payload": payload});
+    let Some((tcp, udp)) = exchange(v, rt, server, "server", "", req, &case) else {
+        return;
+    };
+    if judge_pair(v, "server", "", &tcp, &udp, udp_limit_of(payload), &case).is_some() {
+        v.rep.count(&format!("server_payload/{}", payload.map_or("absent".to_string(), |p| p.to_string())));
+    }
 }
 
 // ---------------------------------------------------------------------------------------------
@@ -644,6 +702,7 @@ fn main() {
                 let server = Server::new(build_catalog(&zone_spec(zseed)));
                 server_case(&mut v, &rt, &server, zseed, &req, payload);
             }
+            Some("server-signed") => signed::replay(&mut v, &rt, c),
             _ => rep.inconclusive("replay: unknown case kind"),
         }
         rep.replay_finish();
@@ -711,6 +770,9 @@ fn main() {
             server_case(&mut v, &rt, &server, zseed, &req, payload);
         }
     }
+
+    // T: server path with a harness-owned handler whose responses carry a TSIG record (signed.rs)
+    signed::run(&mut v, &rt, &mut rng, ctx.budget(1_000, 20_000));
 
     // D2: generated messages biased to many / large records with shared suffixes, ± EDNS, ± TSIG
     let n_msgs = ctx.budget(10_000, 200_000);
